@@ -152,3 +152,94 @@ def conformance(tier):
         out.append(("concrete-run %s" % (case,), st in ("done", "exception"),
                     "%s %s" % (st, exc)))
     return out
+
+
+# ---- K4: FileSet.match -----------------------------------------------------------------------------
+from datetime import datetime, timedelta          # noqa: E402
+from symx.stubs import ModelFS                      # noqa: E402
+from symx import symtime as ST                      # noqa: E402
+import typhon.files.fileset as F                    # noqa: E402
+from typhon.files.handlers.common import FileInfo   # noqa: E402
+from props.fsetlib import sym_env, make_fileset, lex_le     # noqa: E402
+
+WIN = ST.DEFAULT_WINDOW
+LO, HI = datetime(2020, 1, 1), datetime(2020, 1, 3)
+
+
+def _sec_dt(ctx, name):
+    """symbolic instant on a whole second inside [LO, HI)"""
+    s = ctx.int(name, 0, int((HI - LO).total_seconds()) - 1)
+    if ctx.sym:
+        return ST.SymDT(s * 10 ** 6 + ST.us_of(LO), WIN)
+    return LO + timedelta(seconds=int(s))
+
+
+def _fileset(ctx, tag, n, mfs):
+    fset = make_fileset(ctx, "/%s/{year}{month}{day}{hour}{minute}{second}.dat" % tag, mfs, name=tag)
+    files = []
+    for i in range(n):
+        path = "/%s/2020010%d000000.dat" % (tag, i + 1)
+        mfs.files[path] = ("c", i)
+        t0, t1 = _sec_dt(ctx, "%s_t0_%d" % (tag, i)), _sec_dt(ctx, "%s_t1_%d" % (tag, i))
+        ctx.assume(t0 <= t1)
+        fset.info_cache[path] = FileInfo(path, [t0, t1], {})
+        files.append((path, t0, t1))
+    return fset, files
+
+
+@harness("C03.match", cases=lambda tier: [(1, 1), (1, 2), (2, 1)] + ([(2, 2), (1, 3)] if tier == "thorough" else []),
+         expect=lambda c: ["primary-yielded-iff-found-and-has-partner", "partners-exact", "time-order"])
+def k_match(ctx):
+    n1, n2 = ctx.case
+    mfs = ModelFS(ctx, max_faults=0)
+    with sym_env(ctx, WIN):
+        a, fa = _fileset(ctx, "prim", n1, mfs)
+        b, fb = _fileset(ctx, "sec", n2, mfs)
+        start, end = _sec_dt(ctx, "start"), _sec_dt(ctx, "end")
+        ctx.assume(start < end)
+        mi_s = ctx.int("max_interval_s", 0, 2 * 86400)
+        if ctx.sym:
+            mi = ST.SymTD(mi_s * 10 ** 6)
+        else:
+            mi = timedelta(seconds=int(mi_s))
+        try:
+            res = list(a.match(b, start, end, max_interval=mi))
+        except F.NoFilesError:
+            res = []
+        got = {r[0].path: [m.path for m in r[1]] for r in res}
+        ctx.check("each-primary-once", len(got) == len(res))
+        ws, we = start - mi, end + mi
+        for (p, t0, t1) in fa:
+            found = And(t0 < we, t1 >= ws) if ctx.sym else (t0 < we and t1 >= ws)
+            partners = []
+            for (q, u0, u1) in fb:
+                sec_found = And(u0 < we, u1 >= ws) if ctx.sym else (u0 < we and u1 >= ws)
+                inter = And(u0 - mi <= t1, u1 + mi >= t0) if ctx.sym else (u0 - mi <= t1 and u1 + mi >= t0)
+                partners.append((q, And(sec_found, inter) if ctx.sym else (sec_found and inter)))
+            anyp = Or(*[c for _, c in partners]) if ctx.sym else any(c for _, c in partners)
+            exp = And(found, anyp) if ctx.sym else (found and anyp)
+            ctx.check("primary-yielded-iff-found-and-has-partner", (exp if p in got else Not(exp)) if ctx.sym else (bool(exp) == (p in got)),
+                      detail="%s yielded=%r" % (p, p in got))
+            if p in got:
+                ctx.check("no-duplicate-partners", len(set(got[p])) == len(got[p]))
+                for (q, c) in partners:
+                    if ctx.sym:
+                        ctx.check("partners-exact", c if q in got[p] else Not(c), detail="%s with %s: %r" % (p, q, q in got[p]))
+                    else:
+                        ctx.check("partners-exact", bool(c) == (q in got[p]), detail="%s with %s" % (p, q))
+        for x, y in zip(res, res[1:]):
+            ctx.check("time-order", lex_le(ctx, x[0].times, y[0].times))
+        for r in res:
+            for x, y in zip(r[1], r[1][1:]):
+                ctx.check("time-order", lex_le(ctx, x.times, y.times))
+        if len(res) < 2 and all(len(r[1]) < 2 for r in res):
+            ctx.check("time-order", True)
+
+
+PLAN["quick"]["harnesses"].append("C03.match")
+PLAN["thorough"]["harnesses"].append("C03.match")
+BOUNDS["quick"]["FileSet.match"] = ("1 x 1, 1 x 2, 2 x 1 files with arbitrary whole-second coverages inside 2020-01-01 .. 2020-01-03, any period, "
+                                    "any max_interval of 0 .. 2 days in whole seconds")
+BOUNDS["thorough"]["FileSet.match"] = "adds 2 x 2 and 1 x 3"
+OUTSIDE.append("FileSet.match with sub-second coverages (the code compares whole seconds) and with directory trees (C01)")
+STUBS.append("FileSet.match: ModelFS, symbolic coverages through the info cache, symbolic datetimes")
